@@ -46,6 +46,11 @@ CLAIMED = {
         technique="TLA+ verdict functions (RepeWire.SliceVerdict / HeaderVerdict / StreamVerdict, exact 64-bit arithmetic) enumerated by TLC over the boundary-class product; every vector executed on nine entry points in a child process; random and mutated buffers trace-validated by TLC",
         text="TLC enumerates ~35 000 header vectors (each length field over 0, small, =buffer, +-1, 2^31, 2^32, 2^62, 2^63, u64::MAX-k, with totals equal to the exact sum, the sum +-1 and the wrapped sum; buffer lengths around 48; good/bad magic) with the specification's verdict per entry family. Every vector runs on Header::decode, Message/MessageView::from_slice(_exact), read_message(_into)(_async) in a child process so panics and aborts are attributed to their input; ok/err and the returned query/body regions must match. 4 000 (quick) / 40 000 (thorough) random and structurally mutated buffers are judged by TLC recomputing the verdict.",
         note="Silent out-of-bounds reads are not detectable here (they would panic in safe Rust). Stream readers get declared sizes <= 16 MiB or >= 2^62 only, as the property prescribes. Error kinds are not compared."),
+    "C08": dict(
+        category="model_checking", design_ref="DESIGN.md §5 C08",
+        technique="TLA+ layout oracle BeveArray (typed / complex / aligned arrays, padding and borrow rule) evaluated exhaustively by TLC; vectors replayed on encoders, decoders, streaming writers and the borrowing route; random arrays trace-validated by TLC",
+        text="TLC evaluates the array layouts, closed-form lengths and the padding / borrow rule for every query length 0..64, alignment, size class and buffer misalignment 0..7, anchored on bytes of the real encoders. Every vector is replayed: bulk and (n >= 1) generic encoders and the streaming writers must produce the specification's bytes, every decoder must read every encoder's output bit for bit including the empty array, wrong element types and formats must be rejected, and an aligned request placed at each misalignment in an 8-aligned buffer must be borrowed by a with_typed_slice_ref route exactly when the model says so. Random arrays up to 2^20 elements go through builders, writers and the bulk routes with bulk, aligned and generic bodies and are judged by TLC.",
+        note="The layout/padding part is model-checked exhaustively; large payload bit equality is a recorder-side comparison (exploration strength). Half floats only on the bulk paths."),
 }
 
 NOT_YET = {}
